@@ -566,6 +566,10 @@ func Complete(h *Sources, forward, filter bool, maxLines int, regex *regexp.Rege
 
 // Name returns the name of the currently active history source.
 func (h *Sources) Name() string {
+	if h.sourcePos < 0 || h.sourcePos >= len(h.names) {
+		return ""
+	}
+
 	return h.names[h.sourcePos]
 }
 
